@@ -21,11 +21,19 @@ length, same distinctness).  Both renderings are parsed by the strict checker
                       rendering, where the options neither filter nor truncate
   value-modified      to_json(value) (or its format) changed by rendering
   render-raises       the library raised instead of producing a document
+  script-breakout     same elements and attribute names, but the code of an
+                      event-handler attribute (`on*`, references resolved,
+                      tokenized by `monitors/jscheck.py`) differs from the
+                      twin's outside its string literals
 
 The mechanism is the *kind of position* that carried the payload, found by
 re-rendering with only one kind hostile: key@summary / key@label (dict keys and
 dynamic field names, split by the forced `key_style`), diff-key, root-name,
-root-path, str-leaf, repr-leaf, class-name, doc, `<Control>.<field>`,
+root-path, str-leaf, repr-leaf, class-name, doc, `<Control>.<field>` (every
+string-valued constructor argument of every control: text, tooltip, link,
+target, id, css_classes, styles keys and values, tab / sub-progress names;
+for the arguments of a Label with its structural position: `@group-name`,
+`@group-value`, `@tab-label`, a Tooltip object given to a Label `@label`),
 Html.escape@text / Html.escape@attr; `combination:<subject>` when no single
 kind reproduces it.  For a guilty kind the clause does not depend on the random
 payload that happened to sit there: it is decided by two fixed probe payloads
@@ -50,6 +58,23 @@ an update are judged against the scripts of the twin history:
                        update is not the text given)
 
 and the HTML a script inserts (innerHTML / insertAdjacentHTML) is a rendering.
+Values contain nodes with a view of their own: pg.Ref (also to plain dicts /
+lists held by reference), pg.diff, contextual attributes and three user
+classes deriving from HtmlTreeView.Extension (content replaced by a member's,
+default content wrapped, a non-symbolic class laid out with
+`view.complex_value`); for pg.Ref and the user classes the keys and leaves
+they show are part of the presence check.
+
+45 % of the histories contain renderings that FAIL midway in user code: a
+documented callable option (key_style, key_color, summary_color, highlight,
+lowlight, include_keys, exclude_keys, uncollapse) raises at its n-th call, or
+the content / summary method of a user extension, or the repr() of a leaf.
+Nothing is claimed about the failed rendering itself (if the buggy call is
+never made it is an ordinary rendering); the same live object is then
+rendered again under a new option set and judged like every rendering.  A
+finding of such a rendering that does not persist on new objects has the
+mechanism `history:render-after-failed-render`.
+
 Mechanism of a history finding: if it persists on new objects built from the
 reference description with texts new to the process, the position kind of a
 single rendering, or the update method (`Label.update(text)`, `Tooltip.update`,
@@ -77,8 +102,14 @@ TIERS = {
 }
 RULE = ('case = one description (52 % nested Dict/List/tuple/Object/Ref/Diff/'
         'contextual value rendered by the tree view under a random option set '
-        'drawn from all render arguments, through one of 5 entry points; 24 % a '
-        'control tree of Label/Badge/LabelGroup/Tooltip/TabControl/ProgressBar; '
+        'drawn from all render arguments, through one of 5 entry points; nodes '
+        'with their own view: pg.Ref (also to plain containers), pg.diff, '
+        'contextual attributes, 3 user HtmlTreeView.Extension classes; 24 % a '
+        'control tree of Label/Badge/LabelGroup/Tooltip/TabControl/ProgressBar '
+        'with payloads in every string-valued constructor argument (text, '
+        'tooltip, link, target, id, css_classes, styles keys/values, names) and '
+        'labels alone / as group name / group value / tab label / given as str, '
+        'plain or decorated; '
         '10 % a pg.Html.element/escape composition) with 1-25 payload slots; the '
         'hostile and the twin build are rendered under the same options and '
         'compared (plus one rendering per payload kind when they differ). '
@@ -96,7 +127,12 @@ RULE = ('case = one description (52 % nested Dict/List/tuple/Object/Ref/Diff/'
         '1/2; every step runs with all texts hostile and with all texts twin '
         'and the documents / scripts are compared.  A history is non-trivial '
         'if at least one update script and two renderings were checked and an '
-        'update and a rendering (either order) used the same text.')
+        'update and a rendering (either order) used the same text.  45 % of '
+        'the histories also contain renderings of a live value that fail '
+        'midway in user code (a callable option, a user extension method or a '
+        'repr() raising at its n-th call, n in 1..9), each followed with '
+        'probability 0.8 by an ordinary, fully judged rendering of the same '
+        'object under a new option set.')
 REQUIRED_COUNTERS = ['strict_parses', 'twin_comparisons', 'canary_checks',
                      'presence_tokens_checked', 'unchanged_value_checks',
                      'tree_cases', 'control_cases', 'api_cases',
@@ -104,12 +140,20 @@ REQUIRED_COUNTERS = ['strict_parses', 'twin_comparisons', 'canary_checks',
                      'history_cases', 'update_scripts_checked',
                      'script_html_fragments_checked',
                      'render_after_update_shared_text',
-                     'update_after_render_shared_text']
+                     'update_after_render_shared_text',
+                     'failing_renderings_raised',
+                     'renderings_after_failed_rendering']
 ASSUMPTIONS = [
     'html.parser (CPython 3.12) tokenizes like a browser for the constructs the library emits; '
     'the strict rules (explicit end tags, attribute grammar, no raw <) are stronger than HTML5 parsing',
-    'pg.Html objects, inner_html strings, css_classes, styles, ids, titles, colors and CSS selectors '
-    'passed by the caller are markup/configuration by contract and are only given benign values',
+    'pg.Html objects, inner_html strings, titles, colors, CSS selectors (Tooltip.for_element), CSS text '
+    '(add_style) and the css_classes / extra_flags *render options* of the tree view are markup/'
+    'configuration by contract and are only given benign values; ids, css classes, styles, targets and '
+    'names given to the constructor of a control are data in single renderings and benign in histories '
+    '(update scripts address elements by id and class)',
+    'an exception raised by user code during a rendering (option callable, extension method, repr) may '
+    'surface in any form or be contained by the library: nothing is claimed about that rendering, only '
+    'about the renderings after it',
     'dict keys contain no ".", "[" or "]" (such keys are refused at construction or re-interpreted as paths by `root_path + key`: path addressing, C10)',
     'presence is checked on the character data outside elements of class "tooltip", only for keys/leaves '
     'the options do not filter (no callable include/exclude, root-level key lists modelled), and only on '
@@ -1878,7 +1922,7 @@ def gen_history(rng, S):
     if rng.random() < 0.75:
       steps.append(['render-control', ci, rng.choice(HISTORY_HOWS),
                     rng.random() < 0.7])
-  n = rng.randint(4, 9)
+  n = rng.randint(4, 9) + (2 if failing else 0)
   while len(steps) < n:
     r = rng.random()
     if again is not None and rng.random() < 0.8:
@@ -1919,6 +1963,17 @@ def gen_history(rng, S):
                                     pad=rng.choice([0, 0, 10])), form,
                     rng.random() < 0.3])
   return controls, values, steps
+
+
+def count_nodes(d, c):
+  """Counts the nodes with a view of their own (evidence)."""
+  if isinstance(d, list):
+    if d and d[0] in ('R', 'E', 'X', 'C', 'PD', 'PL'):
+      c['node:' + d[0] + (':' + d[1] if d[0] == 'E' else '')] += 1
+      if d[0] == 'R' and d[1][0] in ('PD', 'PL'):
+        c['node:R-to-plain-container'] += 1
+    for x in d:
+      count_nodes(x, c)
 
 
 def _has_node(d, pred):
@@ -2062,20 +2117,24 @@ def html_findings(ctx, t_out, h_out, excludes):
     out.append(('value-modified', t_changed or h_changed))
   if rt.errors:
     out.append(('malformed', rt.describe() + '\n' + t_text[:1200]))
-  c['twin_comparisons'] += 1
-  c['canary_checks'] += 1
-  v = judge(rh, rt)
-  if v is not None:
-    out.append((v[0], v[1] + '\nhostile rendering:\n' + h_text[:1500]))
-    return out
-  c['hostile_renderings_structurally_clean'] += 1
-
   def absent(r, exp):
     hay = r.text(exclude_classes=excludes)
     c['presence_tokens_checked'] += len(exp)
     return {j for j, (_, accepted) in enumerate(exp)
             if not any(a in hay for a in accepted)}
 
+  c['twin_comparisons'] += 1
+  c['canary_checks'] += 1
+  v = judge(rh, rt)
+  if v is not None:
+    out.append((v[0], v[1] + '\nhostile rendering:\n' + h_text[:1500]))
+    mt = absent(rt, t_exp)
+    if mt:
+      what, accepted = t_exp[min(mt)]
+      out.append(('absent', f'{what} {accepted[-1]!r} is not in the character '
+                  f'data of the benign rendering\n{t_text[:1500]}'))
+    return out
+  c['hostile_renderings_structurally_clean'] += 1
   mt = absent(rt, t_exp)
   mh = absent(rh, h_exp) - mt
   for exp, miss, which, text in ((t_exp, mt, 'benign', t_text),
@@ -2245,12 +2304,14 @@ def run_history(ctx):
   for k, tid, _ in S.items:
     c['slots:' + k] += 1
     c['template:' + tid] += 1
+  count_nodes([v['desc'] for v in values], c)
   cur = copy.deepcopy(controls)
   worlds = [World(ctx, S, frozenset(), cur), World(ctx, S, hostile, cur)]
   used = []            # per executed step: (class, text ids)
   nfresh = itertools.count()
   scripts_before = c['update_scripts_checked']
   renders = shared = 0
+  failed_values = set()     # live values with a rendering that raised
   for j, step in enumerate(steps):
     kind = step[0]
     pre = copy.deepcopy(cur)
@@ -2264,9 +2325,13 @@ def run_history(ctx):
     if kind == 'render-control':
       ids = slot_ids(cur[step[1]])
       renders += 1
-    elif kind == 'render-value':
+    elif kind in ('render-value', 'render-value-failing'):
       ids = slot_ids(values[step[1]]) | slot_ids(step[2])
-      renders += 1
+      if 'raised' in (outs[0][0], outs[1][0]):
+        failed_values.add(step[1])
+      else:
+        renders += 1
+        c['renderings_after_failed_rendering'] += step[1] in failed_values
     elif kind == 'escape':
       ids = {step[1]}
     else:
@@ -2287,6 +2352,9 @@ def run_history(ctx):
       c[f'{cls}_after_{prior}_shared_text'] += 1
       shared += cls != prior
     used.append((cls, tids))
+    if kind.startswith('render-value') and step[1] in failed_values:
+      # An earlier rendering of this very object failed midway.
+      prior = 'failed-render'
     if not finds:
       continue
     c['history_steps_with_findings'] += 1
@@ -2302,7 +2370,7 @@ def run_history(ctx):
     if not stateless:
       continue
     # Not a matter of history: attribute like a single rendering / by method.
-    if kind in ('render-control', 'render-value'):
+    if kind in ('render-control', 'render-value', 'render-value-failing'):
       S3 = S.refreshed(f'h{ctx.index}f{next(nfresh)}')
       n0 = violation_count(ctx)
       if kind == 'render-control':
@@ -2311,7 +2379,9 @@ def run_history(ctx):
                               control_class_kinds(d, set()))
       else:
         v = values[step[1]]
-        subj = TreeSubject(ctx, S3, v['desc'], step[2], set(v['class_kinds']))
+        o3 = {k: (['fn', x[1]] if isinstance(x, list) and x[:1] == ['failfn']
+                  else x) for k, x in step[2].items()}
+        subj = TreeSubject(ctx, S3, v['desc'], o3, set(v['class_kinds']))
       evaluate(ctx, subj)
       if violation_count(ctx) == n0:
         for clause, detail in stateless:
@@ -2384,6 +2454,7 @@ def run_case(ctx, i):
     opts = gen_opts(rng, S, desc, g)
     subj = TreeSubject(ctx, S, desc, opts, set(g.class_kinds))
     fp_extra = shape(opts, S)
+    count_nodes(desc, c)
     c['entry:' + opts['entry']] += 1
     for k in opts:
       c['opt:' + k] += 1
